@@ -184,23 +184,22 @@ class OS(object):
                 ms = bprm.loadsegment(s, self.PAGESIZE)
                 if ms != None:
                     vaddr, data = ms.popitem()
-                    p.mmap.write(vaddr, data)
+                    p.state.mmap.write(vaddr, data)
             elif s.p_type == PT_GNU_STACK:
                 # executable_stack = s.p_flags & PF_X
                 pass
         # init task state:
-        p.state = p.initstate()
         p.state[cpu.pc] = cpu.cst(p.bin.entrypoints[0], 64)
         for r in cpu.Xregs:
-            p.state[r] = cst(0, 64)
-        p.state[cpu.pstate] = cst(0, 64)
+            p.state[r] = cpu.cst(0, 64)
+        p.state[cpu.pstate] = cpu.cst(0, 64)
         # create the stack space:
         if self.ASLR:
-            p.mmap.newzone(p.cpu.rsp)
+            p.state.mmap.newzone(p.cpu.sp)
         else:
             stack_base = 0x00007FFFFFFFFFFF & ~(self.PAGESIZE - 1)
             stack_size = 2 * self.PAGESIZE
-            p.mmap.write(stack_base - stack_size, b"\0" * stack_size)
+            p.state.mmap.write(stack_base - stack_size, b"\0" * stack_size)
             p.state[cpu.sp] = cpu.cst(stack_base, 64)
         # create the dynamic segments:
         if bprm.dynamic and interp:
@@ -212,7 +211,7 @@ class OS(object):
         for k, f in p.bin._Elf__dynamic(None).items():
             xfunc = cpu.ext(f, size=64)
             xfunc.stub = p.OS.stub(f)
-            p.mmap.write(k, xfunc)
+            p.state.mmap.write(k, xfunc)
 
     def stub(self, refname):
         return self.stubs.get(refname, self.default_stub)
